@@ -41,9 +41,15 @@ def web_plugins():
     return plugins._cache['c04web']
 
 
+def _literal(request):
+    """Dynamic route answered by the plugin itself (no upstream), stamped like an origin."""
+    body = b'lit|%s|%s|%s' % (request.method, request.path, request.body or b'')
+    return memoryview(b'HTTP/1.1 200 OK\r\nContent-Length: %d\r\n\r\n' % len(body) + body)
+
+
 def rev_plugin():
     return plugins.reverse([(r'/r1/', [b'http://u1.test/p1']), (r'/r2/', [b'http://u2.test:81/p2']),
-                            (r'/r3/', [b'http://u1.test:8080/p3'])], name='VerifRevC04b')
+                            (r'/r3/', [b'http://u1.test:8080/p3'])], {r'/lit/': _literal}, name='VerifRevC04c')
 
 
 # ---- request alphabet: (symbol, target kind) -> bytes, expectation
@@ -55,7 +61,7 @@ CONN = {'none': b'', 'close-last': b'', 'http10-last': b'', 'ka-lower': b'Connec
 def mkreq(role, sym, i, conn='none', last=False):
     """Returns (wire bytes, expected dict(origin, method, path, body))."""
     if role == 'forward':
-        host = {'G': 'a', 'P': 'a', 'C': 'a', 'B': 'b', 'D': 'a'}[sym]
+        host = {'G': 'a', 'P': 'a', 'C': 'a', 'B': 'b', 'D': 'a', 'L': 'b'}[sym]
         port = b':8080' if sym == 'D' else b''
         path = b'/x%d' % i
         target = b'http://%s.test%s%s' % (host.encode(), port, path)
@@ -63,16 +69,16 @@ def mkreq(role, sym, i, conn='none', last=False):
         exp_path = path
         exp_origin = 'a8' if sym == 'D' else host
     elif role == 'web':
-        route = {'G': 'wa', 'P': 'wa', 'C': 'wa', 'B': 'wb', 'D': 'wb'}[sym]
+        route = {'G': 'wa', 'P': 'wa', 'C': 'wa', 'B': 'wb', 'D': 'wb', 'L': 'wb'}[sym]
         path = b'/%s/x%d' % (route.encode(), i)
         target, hosthdr, exp_path, exp_origin = path, b'Host: front\r\n' + CONN[conn], path, route
     else:
-        route = {'G': 'r1', 'P': 'r1', 'C': 'r1', 'B': 'r2', 'D': 'r3'}[sym]
+        route = {'G': 'r1', 'P': 'r1', 'C': 'r1', 'B': 'r2', 'D': 'r3', 'L': 'lit'}[sym]
         path = b'/%s/x%d' % (route.encode(), i)
         target, hosthdr = path, b'Host: front\r\n' + CONN[conn]
-        exp_path = {'r1': b'/p1', 'r2': b'/p2', 'r3': b'/p3'}[route]
-        exp_origin = {'r1': 'u1', 'r2': 'u2', 'r3': 'u1b'}[route]
-    if sym in ('G', 'B', 'D'):
+        exp_path = {'r1': b'/p1', 'r2': b'/p2', 'r3': b'/p3', 'lit': path}[route]
+        exp_origin = {'r1': 'u1', 'r2': 'u2', 'r3': 'u1b', 'lit': 'lit'}[route]
+    if sym in ('G', 'B', 'D', 'L'):
         raw = b'GET %s HTTP/1.1\r\n%s\r\n' % (target, hosthdr)
         method, body = b'GET', b''
     elif sym == 'P':
@@ -96,7 +102,9 @@ def sequences(tier):
     seqs = [s for n in (1, 2) for s in itertools.product(syms, repeat=n)]
     if tier == 'thorough':
         seqs += list(itertools.product(syms, repeat=3))
+        seqs += [s for n in (2, 3) for s in itertools.product('GBL', repeat=n) if 'L' in s]
     else:
+        seqs += [('G', 'L'), ('L', 'G'), ('G', 'L', 'G'), ('L', 'L'), ('B', 'L', 'G')]
         seqs += [('G', 'G', 'G'), ('G', 'P', 'G'), ('P', 'C', 'G'), ('G', 'B', 'G'), ('C', 'C', 'C'), ('B', 'G', 'B'),
                  ('G', 'D', 'G'), ('D', 'B', 'D')]
     return seqs
@@ -227,7 +235,8 @@ def check(w):
                 seen.setdefault(oid, []).append((r['method'], r['target'], r['body'], r['complete']))
         wanted = {}
         for e in exps:
-            wanted.setdefault(e['origin'], []).append((e['method'], e['path'], e['body'], True))
+            if e['origin'] != 'lit':      # answered by the plugin itself: no origin sees it
+                wanted.setdefault(e['origin'], []).append((e['method'], e['path'], e['body'], True))
         if seen != wanted and not out:
             out.append({'symptom': 'origin_request_log_mismatch', 'features': {},
                         'detail': {'seen': seen, 'wanted': wanted}})
